@@ -99,3 +99,12 @@ def scalars_valid():
         st.integers(1, 31).flatmap(lambda z: st.integers(1, (1 << (8 * (32 - z))) - 1)),
         st.integers(1, N - 1),
     )
+
+
+def sized_binary(max_size, min_size=0):
+    """Byte strings of min_size..max_size bytes in which every LENGTH is as likely as any other half of the time
+    (Hypothesis' own st.binary leans heavily towards short strings: lengths near max_size are then hardly ever drawn)."""
+    return st.one_of(
+        st.binary(min_size=min_size, max_size=max_size),
+        st.integers(min_size, max_size).flatmap(lambda n: st.binary(min_size=n, max_size=n)),
+    )
